@@ -259,7 +259,7 @@ def extract_stage0(path):
     arms_src2, _ = block_after(impl2, mm.end())
     sel = re.findall(r"(\d+|_)\s*=>\s*run_program_with_pre_eval_dialect\(\s*allocator\s*,\s*&\s*(\w+)::new\(([^)]*)\)", arms_src2)
     need(sel and len(sel) == len(re.findall(r"(?:\d+|_)\s*=>", arms_src2)) and sel[-1][0] == "_", "run_program: arms not recognised")
-    return {"arms": [a for a, _, _ in arms], "max_len": int(g.group(1)), "kws": kws,
+    return {"arms": [a for a, _, _ in arms], "fns": [(a, f) for a, _, f in arms], "max_len": int(g.group(1)), "kws": kws,
             "default_version": d.group(1),
             "select": [(None if p == "_" else int(p), dialect, [x.strip() for x in flags.split("|") if x.strip()])
                        for p, dialect, flags in sel]}
@@ -311,7 +311,8 @@ def extract_chia(path):
     need(len(arms) + 1 == arms_src.count("=>"), "ChiaDialect::op: 1-byte arms not recognised")
     for _, fl, _ in arms:
         need(fl == "" or fl in flags, f"ChiaDialect::op: unknown flag {fl}")
-    return {"flags": flags, "arms": [(a, fl) for a, fl, _ in arms], "arms4": [a for a, _, _ in arms4], "kws": kw_fns(impl, "ChiaDialect")}
+    return {"flags": flags, "arms": [(a, fl) for a, fl, _ in arms], "fns": [(a, f) for a, _, f in arms],
+            "arms4": [a for a, _, _ in arms4], "kws": kw_fns(impl, "ChiaDialect")}
 
 
 def extract_disassembler(path):
@@ -454,12 +455,16 @@ def generate():
     w(f"def origMaxLen : Nat := {st0['max_len']}")
     w("/-- … and these are the arms of its `match op`. -/")
     w(f"def origOps : List Nat := {lean_list(st0['arms'])}")
+    w("/-- … each arm with the name of the clvmr operator function it dispatches to (bytes of the Rust identifier). -/")
+    w("def origFns : List (Nat × List Nat) := [" + ", ".join(f"({a}, {lean_list(list(f.encode()))})" for a, f in st0["fns"]) + "]")
     w(f"def origQuote : Nat := {st0['kws']['quote_kw']}")
     w(f"def origApply : Nat := {st0['kws']['apply_kw']}")
     w(f"def origSoftfork : Nat := {st0['kws']['softfork_kw']}")
     w("")
     w(f"/-- clvmr {ver} `ChiaDialect::op`: 1-byte arms as (opcode, flag mask that must be set; 0 = unguarded). -/")
     w("def chiaOps : List (Nat × Nat) := [" + ", ".join(f"({a}, {flagval[fl] if fl else 0})" for a, fl in chia["arms"]) + "]")
+    w("/-- the same arms with the operator function each dispatches to. -/")
+    w("def chiaFns : List (Nat × List Nat) := [" + ", ".join(f"({a}, {lean_list(list(f.encode()))})" for a, f in chia["fns"]) + "]")
     w("/-- 4-byte arms (`u32::from_be_bytes`). -/")
     w(f"def chiaOps4 : List Nat := {lean_list(chia['arms4'])}")
     w(f"def chiaQuote : Nat := {chia['kws']['quote_kw']}")
